@@ -17,12 +17,12 @@ echo "RESULT $name demo_unchanged_exit=$c demo_changed_exit=$m"
 if [ "${SKIP_TESTS:-0}" != "1" ]; then
   out=/tmp/seedrun_${name}_junit.xml
   ( cd "$wt" && PYTHONPATH="$wt" /venv/bin/python -m pytest -q -p no:cacheprovider --timeout=900 --continue-on-collection-errors --junitxml="$out" modelx/tests >/tmp/seedrun_${name}_tests.log 2>&1 )
-  python3 - "$out" <<'EOF'
+  python3 - "$out" "$wt" <<'EOF'
 import json, sys, xml.etree.ElementTree as ET
 passed = set()
 for tc in ET.parse(sys.argv[1]).getroot().iter("testcase"):
     if not any(ch.tag in ("failure", "error", "skipped") for ch in tc):
-        passed.add("%s::%s" % (tc.get("classname"), tc.get("name")))
+        passed.add(("%s::%s" % (tc.get("classname"), tc.get("name"))).replace(sys.argv[2], "/repo"))
 stable = set(json.load(open("/root/.vp/BASELINE.json"))["stable_pass"])
 missing = sorted(stable - passed)
 print("RESULT tests stable_pass=%d passed_now=%d missing=%d %s" % (len(stable), len(passed), len(missing), missing[:3]))
